@@ -3,12 +3,12 @@
   which they are claimed monotone.
 
   Rules (each the composition the library documents):
-    plurality          core.Plurality                                       core.py L1381-1400
-    positional         PreConverted(RankedToPositionalVotes(scorer), Plurality)   convert.py L359-381
+    plurality          core.Plurality                                       core.py L1365-1417
+    positional         PreConverted(RankedToPositionalVotes(scorer), Plurality)   convert.py L365-387
     approval           PreConverted(ApprovalToSimpleVotes(), Plurality)     convert.py L70-80
-    score-sum          cardinal.ScoreVoting('sum')                          cardinal.py L63-75, convert.py L158-217
-    Bucklin            sequential.PreferenceAddition()                      sequential.py L525-629
-    Copeland/minimax/Schulze  PreConverted(RankedToCondorcetVotes(), …)     convert.py L399-429, condorcet.py
+    score-sum          cardinal.ScoreVoting('sum')                          cardinal.py L63-75, convert.py L160-217
+    Bucklin            sequential.PreferenceAddition()                      sequential.py L525-631
+    Copeland/minimax/Schulze  PreConverted(RankedToCondorcetVotes(), …)     convert.py L405-435, condorcet.py
   The converters are those of VotelibModel.Convert (C13), the Condorcet evaluators those of
   VotelibModel.CondorcetEval (C05); highest averages is VotelibModel.HighestAverages (C01).
 
@@ -94,7 +94,7 @@ def evalApproval (p : AProfile) : Except Err (List Slot) :=
   | .ok d => .ok (getNBest d 1)
   | .error e => .error e
 
-/-- `ScoreToSimpleVotes('sum').convert`: the per-candidate `{score: count}` tables (convert.py L188-191),
+/-- `ScoreToSimpleVotes('sum').convert`: the per-candidate `{score: count}` tables (convert.py L186-196),
     their expansion and the builtin `sum` (L213-217) collapse to the sum of `score * count` -/
 def scoreSum (p : SProfile) : Votes :=
   p.foldl (fun agg bw => bw.1.foldl (fun agg cs => addTo agg cs.1 (bw.2 * cs.2)) agg) []
@@ -102,14 +102,14 @@ def scoreSum (p : SProfile) : Votes :=
 /-- `ScoreVoting('sum').evaluate(votes, 1)` (cardinal.py L63-75) -/
 def evalScoreSum (p : SProfile) : List Slot := getNBest (scoreSum p) 1
 
-/-- `PreferenceAddition._add_round_votes` (sequential.py L598-614) with coefficient 1 and nobody elected yet;
+/-- `PreferenceAddition._add_round_votes` (sequential.py L600-616) with coefficient 1 and nobody elected yet;
     a shared rank gives its whole weight to every member (the `isinstance(preference, Set)` branch) -/
 def bucklinRound (p : RProfile) (i : Nat) (tot : Votes) : Votes :=
   p.foldl (fun t bw => match bw.1[i]? with
     | some it => it.cands.foldl (fun t c => addTo t c bw.2) t
     | none => t) tot
 
-/-- the `for pref_i in range(max_pref_len)` loop of `PreferenceAddition.evaluate` (L543-561) for one seat:
+/-- the `for pref_i in range(max_pref_len)` loop of `PreferenceAddition.evaluate` (L542-563) for one seat:
     `fuel` rounds are left, `i` is the current preference index, `tot` the running totals -/
 def bucklinLoop (p : RProfile) (quota : Rat) : Nat → Nat → Votes → List Slot
   | 0, _, _ => []
@@ -124,6 +124,35 @@ def bucklinLoop (p : RProfile) (quota : Rat) : Nat → Nat → Votes → List Sl
 def evalBucklin (p : RProfile) : Except Err (List Slot) :=
   if p.isEmpty then .error .valueError
   else .ok (bucklinLoop p (sumValues p / 2) (maxLen p) 0 [])
+
+/-! ### `_decouple_equal_rankings` (sequential.py L565-598): the default Bucklin splits every ballot with shared ranks
+    evenly over all the strict orders it is compatible with -/
+
+def isShared : RankItem → Bool
+  | .shared _ => true
+  | .one _ => false
+
+/-- all strict ballots compatible with `b`: the product of the permutations of its shared ranks (L582-596);
+    `itertools.permutations` enumerates in another order than `Condorcet.perms`, which only affects the insertion
+    order of the new dictionary -/
+def linearize : Ballot → List Ballot
+  | [] => [[]]
+  | .one c :: rest => (linearize rest).map (fun l => RankItem.one c :: l)
+  | .shared cs :: rest =>
+    (Condorcet.perms cs).flatMap (fun pc => (linearize rest).map (fun l => pc.map RankItem.one ++ l))
+
+/-- `PreferenceAddition._decouple_equal_rankings`: `new_votes = votes.copy()`; for every ballot with a shared rank:
+    `del new_votes[ballot]` and every variant receives `n / len(variants)`, ADDED to what the variant holds already
+    (fix 9fdccec) -/
+def decouple (p : RProfile) : RProfile :=
+  p.foldl (fun nv bw =>
+    if bw.1.any isShared then
+      let vars := linearize bw.1
+      vars.foldl (fun nv v => addTo nv v (bw.2 / (vars.length : Rat))) (nv.filter (fun e => e.1 ≠ bw.1))
+    else nv) p
+
+/-- `PreferenceAddition().evaluate(votes, 1)` — Bucklin with the default `split_equal_rankings=True` -/
+def evalBucklinSplit (p : RProfile) : Except Err (List Slot) := evalBucklin (decouple p)
 
 /-- `RankedToCondorcetVotes().convert` -/
 def pairwiseOf (p : RProfile) : Condorcet.Pairwise := rankedToCondorcet true p
